@@ -400,7 +400,7 @@ def _lemma_rt(*args):
     return True
 
 
-SUM_NONNEG = SUM_POS = SUM_CONG = SUM_SPLIT = SUM_SHIFT = SUM_LIN = SUM_CONST = SUM_SCALE = ARR_MONO = MINMAX_EXT = _lemma_rt
+SUM_NONNEG = SUM_POS = SUM_CONG = SUM_SPLIT = SUM_SHIFT = SUM_LIN = SUM_CONST = SUM_SCALE = ARR_MONO = MINMAX_EXT = SUM_CONG_RANGE = _lemma_rt
 
 
 def index_of(x, v):
@@ -417,3 +417,18 @@ def arr_of(seq):
     return seq
 
 MINMAX_EXT_IMP = _lemma_rt
+
+
+def nearest(x, v, strategy):
+    """index of the sample of strictly increasing x selected for v: 'lower' = last <= v (or 0), 'higher' = first >= v (or last),
+    'closest' = nearest, ties to the lower one"""
+    import numpy as np
+    x = np.asarray(x, dtype=float)
+    if strategy == 'lower':
+        k = int(np.searchsorted(x, v, side='right')) - 1
+        return max(k, 0)
+    if strategy == 'higher':
+        k = int(np.searchsorted(x, v, side='left'))
+        return min(k, len(x) - 1)
+    d = np.abs(x - v)
+    return int(np.argmin(d))
